@@ -307,12 +307,12 @@ func registerStrings(p *Program) {
 // most properties); a placeholder schema stands for them unless real_meta is set.
 func (e *Exec) lazyMeta(which string) Value {
 	if e.Params["real_meta"] == 1 || e.Ext["real_meta"] != nil {
-		name := "Swagger20Schema"
+		// the accessor's own body runs (a change to it must be seen), not a shortcut to the decoder behind it
+		name := "MustLoadSwagger20Schema"
 		if which == "draft04" {
-			name = "JSONSchemaDraft04"
+			name = "MustLoadJSONSchemaDraft04"
 		}
-		res := e.callFnBody(nil, e.P.Pkg.Func(name), nil, nil).(Tuple)
-		return res[0]
+		return e.callFnBody(nil, e.P.Pkg.Func(name), nil, nil)
 	}
 	st := e.P.Pkg.Type("Schema").Type()
 	p := e.alloc(st, "meta-schema:"+which)
